@@ -789,6 +789,54 @@ def esc_enum(model, rep):
         cases = [bytes(t) for n in range(1, 3 if quick else 4) for t in itertools.product(alphabet, repeat=n)]
         for b_ in cases:
             run_str(FB, [b_, list(allowed)], 'f_string.Bytes(%r, allowed=%s)' % (b_, allowed))
+    # end to end: the whole printer run on modules whose f-string fields hold crafted str / bytes constants (whatever classes do the quoting and
+    # whatever their constructors look like): every text that reaches eval() while printing is inspected
+    from ..absprint import print_module
+    field_values = []
+    for qq in ("'", '"'):
+        for k in (1, 2, 3):
+            for pre, post in (('\\', '+x#'), ('a\\', '+x#'), ('\\\\', '+x#'), ('', '+x#'), ('\\', ''), ('a\\', 'a' + qq + '+open(1)#'), ('\\n', '+x#'), ('\n', '+x#')):
+                field_values.append(pre + qq * k + post)
+    field_values += ["\\'+__import__('os').sep#", '\\"+__import__("os").sep.encode()#', "'''+x#", '\\', '\\\\', "{'+x+'}", "\\N{BULLET}'+x#"]
+    if quick:
+        field_values = field_values[::3] + field_values[-7:]
+
+    def printing_eval(label):
+        def hook(I, e, args, kw, env):
+            text = args[0]
+            if not isinstance(text, str):
+                return TOP
+            if not closed_literal(text):
+                bad.append((label, text))
+                raise _Raise('InjectedCode')
+            import warnings
+            try:
+                with warnings.catch_warnings():
+                    warnings.simplefilter('ignore')
+                    return ast.literal_eval(text)
+            except Exception as ex:
+                raise _Raise(type(ex).__name__)
+        return hook
+    for v_ in dict.fromkeys(field_values):
+        for as_bytes in (False, True):
+            try:
+                value = v_.encode('ascii') if as_bytes else v_
+            except UnicodeEncodeError:
+                continue
+            const = lambda: ast.Constant(value=value)
+            fv = lambda inner, conv=-1, spec=None: ast.FormattedValue(value=inner, conversion=conv, format_spec=spec)
+            shapes = {
+                'the field': [fv(const())],
+                'a subscript in the field, text around it': [ast.Constant(value='t '), fv(ast.Subscript(value=ast.Name(id='d', ctx=ast.Load()), slice=const(), ctx=ast.Load()), 114), ast.Constant(value=" '\"")],
+                'a call argument in a nested f-string': [fv(ast.JoinedStr(values=[fv(ast.Call(func=ast.Name(id='g', ctx=ast.Load()), args=[const()], keywords=[]))]))],
+            }
+            for sl, values in shapes.items():
+                tree = ast.fix_missing_locations(ast.Module(body=[ast.Assign(targets=[ast.Name(id='t', ctx=ast.Store())], value=ast.JoinedStr(values=values))], type_ignores=[]))
+                label = 'printing t = f-string with the %s constant %r as %s' % ('bytes' if as_bytes else 'str', value, sl)
+                r = print_module(model, tree, extra_hooks={'eval': printing_eval(label)})
+                n_cells += 1
+                if r[0] == 'undecided':
+                    raise AnalysisError('UNDECIDED: %s: %s' % (label, r[1]))
     where = 'src/python_minifier/ministring.py, f_string.py'
     seen = set()
     for (label, text) in bad:
